@@ -108,7 +108,7 @@ def comp_obs(comp):
         if "RDATE" in c:
             r = c["RDATE"]
             for tree in (r if isinstance(r, list) else [r]):
-                rd += [secs(x.dt) for x in tree.dts]
+                rd += [secs(x.dt) if isinstance(x.dt, datetime.datetime) else ["not a date-time", repr(x.dt)[:60]] for x in tree.dts]
         out.append([int(c.name == "STANDARD"), int(c.TZOFFSETFROM.total_seconds()), int(c.TZOFFSETTO.total_seconds()),
                     str(c.get("TZNAME")), secs(c.DTSTART), rd])
     return out
@@ -128,6 +128,8 @@ def wellformed(comp, first_wall, last_wall):
                 return f"{c.name} without {p}"
     for o in comp_obs(comp):
         for w in [o[4]] + o[5]:
+            if not isinstance(w, int):
+                return "an onset (RDATE) that is not a date-time: " + str(w)
             if not (first_wall <= w <= last_wall):
                 return f"onset {naive(w)} outside the window"
     return None
